@@ -236,6 +236,16 @@ theorem correlogramsFl_default_ids (times : List Rat) (sc : List Int) (rate bin 
             else specCcg (samplesOfFl rate times) sc (Np.unique sc) (binsizeOfFl rate bin) (halfOfFl window bin)) :=
   Lemmas.correlogramsFl_eq_spec times sc (Np.unique sc) rate bin window sym hr hsorted hlen (Lemmas.unique_inDom sc h) hb
 
+/-- what the driver executes: the float products once (`prodsFl`), truncated to the samples, then
+`correlogramsOfInts` — the same value as `correlogramsFl` -/
+theorem correlogramsFl_as_run (times : List Rat) (sc : List Int) (ids : Option (List Nat)) (rate bin window : Rat)
+    (sym : Bool) :
+    samplesOfFl rate times = (prodsFl rate times).map truncInt ∧
+    correlogramsFl times sc ids rate bin window sym =
+      correlogramsOfInts ((prodsFl rate times).map truncInt) (binsizeOfFl rate bin) (winsizeBinsFl window bin)
+        times sc ids rate sym :=
+  ⟨Lemmas.samplesOfFl_eq_prods rate times, by rw [← Lemmas.samplesOfFl_eq_prods]; rfl⟩
+
 /-- a bin shorter than one sample (after the float product and truncation) fails `assert binsize >= 1` -/
 theorem correlogramsFl_rejects (times : List Rat) (sc : List Int) (ids : Option (List Nat)) (rate bin window : Rat)
     (sym : Bool) (hb : binsizeOfFl rate bin < 1) : correlogramsFl times sc ids rate bin window sym = none :=
@@ -304,6 +314,9 @@ example : FlExact (1/2) (3/2) [0, 0, 1, 3, 4] 2 where
   binFit := by decide
   windowDouble := ⟨3, -1, by decide, by decide +kernel⟩
   quotDouble := ⟨3, -1, by decide, by decide +kernel⟩
+/-- on that input (GridOK and FlExact both hold, see above) the float model returns the seconds-level pair counts -/
+example : correlogramsFl [0, 0, 1/4, 3/4, 1] [7, 2, 7, 2, 7] (some [7, 5, 2]) 4 (1/2) (3/2) false =
+    some (specSeconds [0, 0, 1/4, 3/4, 1] [7, 2, 7, 2, 7] [7, 5, 2] (1/2) 1) := by decide +kernel
 
 end PhyVerif.C15
 
@@ -371,6 +384,13 @@ theorem isDoubleB_iff (x : Rat) : isDoubleB x = true ↔ IsDouble x :=
 /-! Non-vacuity: 0.1, a tie resolved to the even neighbour (2^53 + 1 → 2^53, 2^53 + 3 → 2^53 + 4), an integer
 beyond 2^53, a negative number, the range predicate. -/
 example : roundDouble (1 / 10) = 3602879701896397 / 36028797018963968 := by decide +kernel
+/-- 0.1 = 7205759403792794 · 2^-56: a normal double -/
+example : NormalBinary64 (roundDouble (1 / 10)) :=
+  ⟨7205759403792794, -56, by decide, by decide, by decide, by decide, by decide +kernel⟩
+example : ulpExp (1 / 10) = -56 ∧ absR (roundDouble (1 / 10) - 1 / 10) ≤ pow2 (-57) := by decide +kernel
+example : roundDouble (1 / 3) ≤ roundDouble (1 / 3 + 1 / 1000000000000000000) ∧
+    roundDouble (roundDouble (1 / 3)) = roundDouble (1 / 3) ∧ roundDouble (-(1 / 3)) = -roundDouble (1 / 3) := by
+  decide +kernel
 example : roundDouble 9007199254740993 = 9007199254740992 ∧ roundDouble 9007199254740995 = 9007199254740996 ∧
     roundDouble (-9007199254740995) = -9007199254740996 := by decide +kernel
 example : IsDouble (9007199254740994 : Rat) := ⟨4503599627370497, 1, by decide, by decide +kernel⟩
